@@ -851,6 +851,11 @@ func (cfg *Config) quotedElemFields(pe *syntax.ParamExp) ([]string, error) {
 				return vr.indexedKeys(), nil
 			case Associative:
 				return slices.Collect(maps.Keys(vr.Map)), nil
+			case String:
+				if vr.IsSet() {
+					// A scalar has the single key zero.
+					return []string{"0"}, nil
+				}
 			case Unknown:
 				if !vr.IsSet() {
 					// An unset "${!name[@]}" lists no keys, like an empty array.
